@@ -78,7 +78,7 @@ package main
 
 //@ func RedactMongoLog
 //@   safety C07
-//@   props C01 C04 C12 C13 C15
+//@   props C01 C04 C12 C13 C15 C06
 //@   assigns GoMaps, Arr:Val, Mem:OMap, decUseNumber
 //@   allocs Arr:Int, Arr:Slice, Mem:Str, Arr:Str
 //@   local c := mkCfg(redactedString, redactNumbers, redactBooleans, shouldEncrypt && encryptionKey != nil, mkbytes(elems(encryptionKey), off(encryptionKey), len(encryptionKey)), redactedFieldsRegexp, emailRegex, redactNamespaces)
@@ -104,30 +104,30 @@ package main
 
 //@ func MarshalOrdered
 //@   safety C07
-//@   props C03 C04
+//@   props C03 C04 C05
 //@   assigns nothing
 //@   allocs Arr:Int, bufText
 //@   requires map: m != nil
 //@   local A := om(m)
 //@   loop 1 invariant el-valid: (el == nil || (elMap(el) == m && 0 <= elPos(el) && elPos(el) < omLen(A))) && i == ite(el == nil, omLen(A), elPos(el))
 //@   loop 1 invariant buffers-frame: unchangedBelow("g:bufText")
-//@   loop 1 invariant entries-so-far {C03,C04,C19}: MapAcc(A, i, bufText[&buf])
+//@   loop 1 invariant entries-so-far {C03,C04,C05,C19}: MapAcc(A, i, bufText[&buf])
 //@   ensures error-or-bytes: (result1 != nil) == (result0 == nil) || result1 == nil
-//@   defines map-text {C03,C04,C19}: MapText(m, bstr(mkbytes(ielems(result0), off(result0), len(result0)))) := implies(result1 == nil, MapClosed(A, bstr(mkbytes(ielems(result0), off(result0), len(result0)))))
-//@   at_call encoding/json.Marshal keys-through-the-json-encoder {C03,C04,C19}: v == VStr(omKey(A, i))
+//@   defines map-text {C03,C04,C05,C19}: MapText(m, bstr(mkbytes(ielems(result0), off(result0), len(result0)))) := implies(result1 == nil, MapClosed(A, bstr(mkbytes(ielems(result0), off(result0), len(result0)))))
+//@   at_call encoding/json.Marshal keys-through-the-json-encoder {C03,C04,C05,C19}: v == VStr(omKey(A, i))
 
 //@ func marshalValue
 //@   safety C07
-//@   props C03 C04
+//@   props C03 C04 C05
 //@   assigns bufText
 //@   allocs Arr:Int
 //@   requires buffer: buf != nil
 //@   local T0 := bufText[buf]
 //@   loop 1 invariant only-this-buffer: unchangedBelowExcept("g:bufText", buf)
-//@   loop 1 invariant elements-so-far {C03,C04,C19}: ArrAcc(velems(arrOf(value)), off(arrOf(value)), _idx, T0, bufText[buf])
+//@   loop 1 invariant elements-so-far {C03,C04,C05,C19}: ArrAcc(velems(arrOf(value)), off(arrOf(value)), _idx, T0, bufText[buf])
 //@   ensures only-this-buffer: unchangedBelowExcept("g:bufText", buf)
-//@   defines rendered {C03,C04,C19}: Rendered(value, T0, bufText[buf]) := implies(result == nil, RenderedDef(value, velems(arrOf(value)), T0, bufText[buf]))
-//@   at_call encoding/json.Marshal only-scalars-reach-the-json-encoder {C03,C04}: !isMap(v) && !isArr(v)
+//@   defines rendered {C03,C04,C05,C19}: Rendered(value, T0, bufText[buf]) := implies(result == nil, RenderedDef(value, velems(arrOf(value)), T0, bufText[buf]))
+//@   at_call encoding/json.Marshal only-scalars-reach-the-json-encoder {C03,C04,C05}: !isMap(v) && !isArr(v)
 
 // ---------------------------------------------------------------------------------------------
 // reader.go
@@ -138,9 +138,9 @@ package main
 //@   assigns nothing
 
 //@ func processMongoLogStream
-//@   props C08 C06 C02
+//@   props C08 C06 C02 C01
 //@   safety C07
-//@   assigns GoMaps, wfailOn, scanErr, outN, stderrN, scannedN, decUseNumber, Arr:Val, Mem:OMap
+//@   assigns GoMaps, wfailOn, scanErr, outN, stderrN, scannedN, decUseNumber, Arr:Val, Mem:OMap, unflushed, bufDirty
 //@   allocs Arr:Str
 //@   requires: !wfailOn[outWriter] && !scanErr
 //@   loop 1 invariant io-ok {C08}: !wfailOn[outWriter] && !scanErr
@@ -149,31 +149,34 @@ package main
 //@   ensures only-io-aborts {C07}: implies(result != nil, wfailOn[outWriter] || scanErr)
 //@   ensures only-this-writer: wfailOn == store(old(wfailOn), outWriter, wfailOn[outWriter])
 //@   ensures out-grows: outN >= old(outN)
+//@   ensures only-the-given-writer-may-hold-unflushed-data {C08}: result != nil || (unflushed - ite(bufDirty[outWriter], 1, 0) == old(unflushed) - ite(old(bufDirty)[outWriter], 1, 0) && implies(old(bufUnder)[outWriter] == 0 || outWriter == os.Stdout || outWriter == os.Stderr, bufDirty[outWriter] == old(bufDirty)[outWriter]))
+//@   loop 1 invariant only-the-given-writer-may-hold-unflushed-data {C08}: unflushed - ite(bufDirty[outWriter], 1, 0) == old(unflushed) - ite(old(bufDirty)[outWriter], 1, 0) && implies(old(bufUnder)[outWriter] == 0 || outWriter == os.Stdout || outWriter == os.Stderr, bufDirty[outWriter] == old(bufDirty)[outWriter])
 //@   ensures open-unchanged: openFail == old(openFail)
 //@   loop 1 invariant at-most-one-line-out-per-line-in {C06,C07}: outN - old(outN) <= scannedN - old(scannedN) && scannedN >= old(scannedN)
 //@   ensures at-most-one-line-out-per-line-in {C06,C07}: outN - old(outN) <= scannedN - old(scannedN)
-//@   at_call RedactMongoLog processes-the-scanned-line {C06}: jsonStr == line
-//@   at_call MarshalOrdered serialises-the-redacted-entry {C06}: m == redacted
-//@   at_call fmt.Fprintln writes-the-redacted-line-to-the-output {C06}: w == outWriter && len(a) == 1 && a[0] == VStr(bstr(mkbytes(elems(out), off(out), len(out))))
+//@   at_call RedactMongoLog processes-the-scanned-line {C06,C01,C02}: jsonStr == line
+//@   at_call MarshalOrdered serialises-the-redacted-entry {C06,C01,C02}: m == redacted
+//@   at_call fmt.Fprintln writes-the-redacted-line-to-the-output {C06,C01,C02}: w == os.Stderr || ((w == outWriter || bufUnder[w] == outWriter) && len(a) == 1 && a[0] == VStr(bstr(mkbytes(elems(out), off(out), len(out)))))
 //@   at_call addOneToBar#1 only-blank-lines-are-skipped {C06}: line == ""
 
 //@ func ProcessMongoLogFile
 //@   props C08
 //@   safety C07
-//@   assigns GoMaps, wfailOn, scanErr, openFail, outN, stderrN, scannedN, envOps, decUseNumber, Arr:Val, Mem:OMap
+//@   assigns GoMaps, wfailOn, scanErr, openFail, outN, stderrN, scannedN, envOps, decUseNumber, Arr:Val, Mem:OMap, unflushed, bufDirty
 //@   allocs Arr:Str
 //@   requires: !wfailOn[outWriter] && !scanErr && !openFail && fileReader != nil
 //@   requires key-in-use-is-the-persisted-one {C11}: implies(shouldEncrypt && encryptionKey != nil, havePersisted && persistedKey == mkbytes(elems(encryptionKey), off(encryptionKey), len(encryptionKey)))
 //@   ensures no-silent-failure {C08}: implies(result == nil, !wfailOn[outWriter] && !scanErr && !openFail)
 //@   ensures only-this-writer: wfailOn == store(old(wfailOn), outWriter, wfailOn[outWriter])
 //@   ensures out-grows: outN >= old(outN)
+//@   ensures only-the-given-writer-may-hold-unflushed-data {C08}: result != nil || (unflushed - ite(bufDirty[outWriter], 1, 0) == old(unflushed) - ite(old(bufDirty)[outWriter], 1, 0) && implies(old(bufUnder)[outWriter] == 0 || outWriter == os.Stdout || outWriter == os.Stderr, bufDirty[outWriter] == old(bufDirty)[outWriter]))
 //@   ensures touched-environment: envOps > old(envOps)
 //@   sets processedN := processedN + 1
 
 //@ func ProcessMongoLogFileFromReader
 //@   props C08
 //@   safety C07
-//@   assigns GoMaps, wfailOn, scanErr, outN, stderrN, scannedN, envOps, decUseNumber, Arr:Val, Mem:OMap
+//@   assigns GoMaps, wfailOn, scanErr, outN, stderrN, scannedN, envOps, decUseNumber, Arr:Val, Mem:OMap, unflushed, bufDirty
 //@   allocs Arr:Str
 //@   requires: !wfailOn[outWriter] && !scanErr
 //@   requires key-in-use-is-the-persisted-one {C11}: implies(shouldEncrypt && encryptionKey != nil, havePersisted && persistedKey == mkbytes(elems(encryptionKey), off(encryptionKey), len(encryptionKey)))
@@ -181,6 +184,7 @@ package main
 //@   ensures no-silent-failure {C08}: implies(result == nil, !wfailOn[outWriter] && !scanErr)
 //@   ensures only-this-writer: wfailOn == store(old(wfailOn), outWriter, wfailOn[outWriter])
 //@   ensures out-grows: outN >= old(outN)
+//@   ensures only-the-given-writer-may-hold-unflushed-data {C08}: result != nil || (unflushed - ite(bufDirty[outWriter], 1, 0) == old(unflushed) - ite(old(bufDirty)[outWriter], 1, 0) && implies(old(bufUnder)[outWriter] == 0 || outWriter == os.Stdout || outWriter == os.Stderr, bufDirty[outWriter] == old(bufDirty)[outWriter]))
 //@   ensures open-unchanged: openFail == old(openFail)
 
 //@ func GetStartAndEndDates
@@ -233,7 +237,9 @@ package main
 
 //@ func (*AtlasClient).DeleteClusterLogs
 //@   props C17
-//@   assigns tmp, stderrN, wfailOn, outN
+//@   assigns tmp, stderrN, wfailOn, outN, unflushed, bufDirty
+//@   ensures buffers-untouched: unflushed == old(unflushed) && bufDirty == old(bufDirty)
+//@   loop 1 invariant buffers-untouched: unflushed == old(unflushed) && bufDirty == old(bufDirty)
 //@   ensures only-std-writers: wfailOn == store(store(old(wfailOn), os.Stdout, wfailOn[os.Stdout]), os.Stderr, wfailOn[os.Stderr])
 //@   loop 1 invariant removed {C17}: tmp == minus(old(tmp), elemsS(elems(logFiles), off(logFiles), _idx))
 //@   loop 1 invariant frame: unchangedBelow("Arr:Str") && heapTop >= old(heapTop) && (base(errs) == 0 || base(errs) > old(heapTop)) && wfailOn == store(store(old(wfailOn), os.Stdout, wfailOn[os.Stdout]), os.Stderr, wfailOn[os.Stderr])
@@ -244,9 +250,11 @@ package main
 //@ func (*AtlasClient).downloadClusterLogsForHost
 //@   props C17 C16 C20
 //@   requires: c != nil && c.HTTPClient != nil
-//@   assigns tmp, effects, envOps, reqs, reqURL, stderrN
+//@   assigns tmp, effects, envOps, reqs, reqURL, stderrN, unflushed, bufDirty, stored, lastBody
+//@   ensures buffers-untouched: unflushed == old(unflushed) && bufDirty == old(bufDirty)
 //@   ensures no-leftover-on-error {C17}: implies(result1 != nil, tmp == old(tmp))
 //@   ensures registered-on-success {C17}: implies(result1 == nil, tmp == add(old(tmp), result0))
+//@   ensures stored-verbatim {C16}: implies(result1 == nil, stored[result0] == bodyBytes(lastBody))
 //@   ensures one-request {C16}: reqs == old(reqs) || reqs == seqPush(old(reqs), hostURL(c.BaseURL, projectID, host, startDate, endDate))
 //@   ensures one-request-on-success {C16}: implies(result1 == nil, reqs == seqPush(old(reqs), hostURL(c.BaseURL, projectID, host, startDate, endDate)))
 //@   ensures touched-environment: envOps > old(envOps)
@@ -254,7 +262,7 @@ package main
 //@ func (*AtlasClient).getAtlasClusterInfo
 //@   props C16 C20
 //@   requires: c != nil && c.HTTPClient != nil
-//@   assigns effects, envOps, reqs, reqURL
+//@   assigns effects, envOps, reqs, reqURL, lastBody
 //@   ensures one-request {C16}: reqs == old(reqs) || reqs == seqPush(old(reqs), infoURL(c.BaseURL, projectID, clusterName))
 //@   ensures one-request-on-success {C16}: implies(result1 == nil, reqs == seqPush(old(reqs), infoURL(c.BaseURL, projectID, clusterName)))
 //@   sets clusterStd := ite(result1 == nil, result0.ConnectionStrings.Standard, clusterStd)
@@ -276,7 +284,9 @@ package main
 //@ func (*AtlasClient).DownloadClusterLogs
 //@   props C17 C16
 //@   requires: c != nil && c.HTTPClient != nil
-//@   assigns tmp, effects, envOps, reqs, reqURL, stderrN, wfailOn, clusterStd, outN
+//@   assigns tmp, effects, envOps, reqs, reqURL, stderrN, wfailOn, clusterStd, outN, unflushed, bufDirty, stored, lastBody
+//@   ensures buffers-untouched: unflushed == old(unflushed) && bufDirty == old(bufDirty)
+//@   loop 1 invariant buffers-untouched: unflushed == old(unflushed) && bufDirty == old(bufDirty)
 //@   ensures only-std-writers: wfailOn == store(store(old(wfailOn), os.Stdout, wfailOn[os.Stdout]), os.Stderr, wfailOn[os.Stderr])
 //@   loop 1 invariant one-request-per-host-in-order {C16}: clusterStd == atlasClusterInfo.ConnectionStrings.Standard && implies(schemeOf(clusterStd) != "mongodb+srv", _idx <= hostCount(clusterStd) && ReqAcc(seqPush(old(reqs), infoURL(c.BaseURL, projectID, clusterName)), hostSeq(clusterStd), _idx, c.BaseURL, projectID, startDate, endDate, reqs))
 //@   loop 1 invariant hosts-are-the-members {C16}: implies(schemeOf(clusterStd) != "mongodb+srv", len(hosts) == hostCount(clusterStd) && MapStrip(hostSeq(clusterStd), 0, elems(hosts), off(hosts), len(hosts))) && base(hosts) <= heapTop && (base(hosts) > old(heapTop) || base(hosts) == 0)
@@ -301,7 +311,8 @@ package main
 
 //@ func main$1$1
 //@   props C17
-//@   assigns tmp, stderrN, wfailOn, outN
+//@   assigns tmp, stderrN, wfailOn, outN, unflushed, bufDirty
+//@   ensures buffers-untouched: unflushed == old(unflushed) && bufDirty == old(bufDirty)
 //@   ensures only-std-writers: wfailOn == store(store(old(wfailOn), os.Stdout, wfailOn[os.Stdout]), os.Stderr, wfailOn[os.Stderr])
 //@   ensures cleanup {C17}: tmp == minus(old(tmp), elemsS(elems(*files), off(*files), len(*files)))
 //@   ensures out-grows: outN >= old(outN)
@@ -315,7 +326,7 @@ package main
 //@   ensures only-when-everything-checks {C09}: fsKind[*decryptionKeyFile] == 1 && b64ok(bstr(fsData[*decryptionKeyFile])) && blen(b64dec(bstr(fsData[*decryptionKeyFile]))) == 64 && b64ok(args[0]) && daeadDecOK(b64dec(bstr(fsData[*decryptionKeyFile])), b64dec(args[0]), noBytes)
 
 //@ func main$1
-//@   props C18
+//@   props C18 C02 C10
 //@   local hasFile := len(args) == 1
 //@   local piped := bitand(fmode(statOf(os.Stdin)), 2097152) == 0
 //@   local proj := *atlasProjectId != ""
@@ -336,7 +347,7 @@ package main
 //@   local kf := *encryptionKeyFile
 //@   local encOn := enc && kf != ""
 //@   local keyValid := fsKind[kf] == 1 && b64ok(bstr(fsData[kf])) && blen(b64dec(bstr(fsData[kf]))) == 64
-//@   requires: processedN == 0 && effects == 0 && envOps == 0 && stderrN == 0 && tmp == emptyset && wfailOn == noFail && !scanErr && !openFail && !havePersisted
+//@   requires: processedN == 0 && effects == 0 && envOps == 0 && stderrN == 0 && tmp == emptyset && wfailOn == noFail && !scanErr && !openFail && !havePersisted && bufUnder == noBuf && unflushed == 0
 //@   requires: len(args) <= 1 && !shouldEncrypt && encryptionKey == nil
 //@   loop 1 invariant every-downloaded-file-is-processed {C16}: processedN == _idx
 //@   loop 1 invariant temp-files {C17}: tmp == elemsS(elems(files), off(files), len(files)) && !scanErr && !openFail && wfailOn == store(store(noFail, os.Stdout, wfailOn[os.Stdout]), os.Stderr, wfailOn[os.Stderr])
@@ -350,6 +361,8 @@ package main
 //@   exit_requires complete {C18}: implies(WD, envOps > 0)
 //@   ensures accepted-only-if-well-defined {C18}: WD
 //@   ensures success-means-no-io-failure {C08}: !scanErr && !openFail && wfailOn == store(store(noFail, os.Stdout, wfailOn[os.Stdout]), os.Stderr, wfailOn[os.Stderr]) && implies(!atlas, !wfailOn[os.Stdout])
+//@   ensures all-output-flushed {C08}: unflushed == 0
+//@   loop 1 invariant all-output-flushed {C08}: unflushed == 0
 //@   exit_requires no-temp-left {C17}: tmp == emptyset
 //@   ensures no-temp-left {C17}: tmp == emptyset
 //@   exit_requires existing-key-file-untouched {C11}: implies(encOn && old(fsKind)[kf] != 0, fsWrites == old(fsWrites) && fsKind[kf] == old(fsKind)[kf] && fsData[kf] == old(fsData)[kf])
@@ -361,6 +374,8 @@ package main
 //@   at_call ProcessMongoLogFileFromReader wiring {C01,C05}: redactedString == *replacement && G.redactNumbers == *redactNumbers && G.redactBooleans == *redactBooleans && G.redactIPs == *redactIPs && G.redactNamespaces == *redactNamespaces && G.eagerRedactionPaths == *eagerRedactionPaths && (G.redactedFieldsRegexp == nil) == (*redactedFieldsRegexp == "")
 //@   at_call ProcessMongoLogFile#1 pairing {C16}: filePath == file && fileName[outWriter] == sprintf2("%s.%d", VStr(*outputFile), VInt(i)) && file == files[i]
 //@   at_call ProcessMongoLogFile encrypt-wiring {C01,C10}: implies(enc && kf != "", shouldEncrypt && encryptionKey != nil)
+//@   at_call ProcessMongoLogFile placeholder-mode-unless-encrypt-is-asked-for {C02,C10}: implies(!(enc && kf != ""), !(shouldEncrypt && encryptionKey != nil))
+//@   at_call ProcessMongoLogFileFromReader placeholder-mode-unless-encrypt-is-asked-for {C02,C10}: implies(!(enc && kf != ""), !(shouldEncrypt && encryptionKey != nil))
 
 // ---------------------------------------------------------------------------------------------
 // package invariants (assumed at the entry of every function under contract; established by package
@@ -492,7 +507,7 @@ package main
 
 //@ func redactArrayValuesWithKey
 //@   safety C07
-//@   props C01 C03 C14 C15 C02
+//@   props C01 C03 C14 C15 C02 C06
 //@   assigns Arr:Str, Arr:Val, GoMaps
 //@   allocs Arr:Int, Mem:OMap
 //@   local c := mkCfg(redactedString, redactNumbers, redactBooleans, shouldEncrypt && encryptionKey != nil, mkbytes(elems(encryptionKey), off(encryptionKey), len(encryptionKey)), redactedFieldsRegexp, emailRegex, redactNamespaces)
@@ -508,7 +523,7 @@ package main
 
 //@ func redactArrayValues
 //@   safety C07
-//@   props C01 C03 C02
+//@   props C01 C03 C02 C06
 //@   assigns Arr:Str, Arr:Val, GoMaps
 //@   allocs Arr:Int, Mem:OMap
 //@   local c := mkCfg(redactedString, redactNumbers, redactBooleans, shouldEncrypt && encryptionKey != nil, mkbytes(elems(encryptionKey), off(encryptionKey), len(encryptionKey)), redactedFieldsRegexp, emailRegex, redactNamespaces)
@@ -518,7 +533,7 @@ package main
 
 //@ func redactQueryValues
 //@   safety C07
-//@   props C01 C03 C14 C15 C02
+//@   props C01 C03 C14 C15 C02 C06
 //@   assigns Arr:Str, Arr:Val, GoMaps
 //@   allocs Arr:Int, Mem:OMap
 //@   requires map: obj != nil
@@ -540,7 +555,7 @@ package main
 
 //@ func augmentOp
 //@   safety C07
-//@   props C01
+//@   props C01 C06
 //@   assigns nothing
 //@   allocs Mem:OMap
 //@   requires maps: op != nil && v != nil
@@ -553,7 +568,7 @@ package main
 
 //@ func redactPipelineStage
 //@   safety C07
-//@   props C01 C03 C04 C02
+//@   props C01 C03 C04 C02 C06
 //@   assigns Arr:Str, Arr:Val, GoMaps
 //@   allocs Arr:Int, Mem:OMap
 //@   local c := mkCfg(redactedString, redactNumbers, redactBooleans, shouldEncrypt && encryptionKey != nil, mkbytes(elems(encryptionKey), off(encryptionKey), len(encryptionKey)), redactedFieldsRegexp, emailRegex, redactNamespaces)
@@ -594,7 +609,7 @@ package main
 
 //@ func redactCommand
 //@   safety C07
-//@   props C01 C04 C03 C02
+//@   props C01 C04 C03 C02 C06
 //@   assigns Arr:Val, GoMaps, Mem:OMap
 //@   allocs Arr:Int, Arr:Str
 //@   requires not-a-table: !isTable(cmd)
@@ -625,7 +640,7 @@ package main
 
 //@ func redactNamespace
 //@   safety C07
-//@   props C12
+//@   props C12 C06
 //@   assigns GoMaps, Mem:OMap
 //@   allocs Arr:Int, Arr:Str, Arr:Val
 //@   requires map: cmd != nil && !isTable(cmd)
